@@ -48,6 +48,19 @@ func reverseZSetMembers(mems []*ZSetMember) []*ZSetMember {
 	return mems
 }
 
+// limitZSetMembers skips opt.Offset members and returns at most opt.Count members (all if negative).
+func limitZSetMembers(mems []*ZSetMember, opt ZRangeOption) []*ZSetMember {
+	offset := opt.Offset
+	if offset < 0 || len(mems) < offset {
+		offset = len(mems)
+	}
+	end := len(mems)
+	if 0 <= opt.Count && opt.Count < (end-offset) {
+		end = offset + opt.Count
+	}
+	return mems[offset:end]
+}
+
 func NewZSetMember(score float64, data string) *ZSetMember {
 	return &ZSetMember{
 		Score:  score,
@@ -96,20 +109,12 @@ func (zset *ZSet) Range(start int, stop int, opt ZRangeOption) []*ZSetMember {
 		mems = append(mems, zset.members[n])
 	}
 
-	offset := opt.Offset
-	if offset < 0 {
-		offset = 0
-	}
-	count := opt.Count
-	if count < 0 {
-		count = len(mems)
-	}
-
+	mems = limitZSetMembers(mems, opt)
 	if !opt.REV {
-		return mems[offset:count]
+		return mems
 	}
 
-	return reverseZSetMembers(mems[offset:count])
+	return reverseZSetMembers(mems)
 }
 
 func (zset *ZSet) RangeByScore(min float64, max float64, opt ZRangeOption) []*ZSetMember {
@@ -124,20 +129,12 @@ func (zset *ZSet) RangeByScore(min float64, max float64, opt ZRangeOption) []*ZS
 		mems = append(mems, mem)
 	}
 
-	offset := opt.Offset
-	if offset < 0 {
-		offset = 0
-	}
-	count := opt.Count
-	if count < 0 {
-		count = len(mems)
-	}
-
+	mems = limitZSetMembers(mems, opt)
 	if !opt.REV {
-		return mems[offset:count]
+		return mems
 	}
 
-	return reverseZSetMembers(mems[offset:count])
+	return reverseZSetMembers(mems)
 }
 
 func (zset *ZSet) Rem(members []string) int {
